@@ -34,7 +34,9 @@ OPS = [('&', lambda p, q: p and q, lambda x, y: x & y),
 def scope(tier, seed):
     d = {'3 variables': 'all 256 functions x 6 orderings: 65536 ordered pairs x 3 operators each, '
                         'negation, 3x4 restrictions', 'expressions': 'all of depth<=2 over a,b,c,0,1',
-         'errors': 'ordering mismatch for every pair of distinct orderings; unknown variable'}
+         'errors': 'ordering mismatch for every pair of distinct orderings; unknown variable',
+         'cross-ordering histories': 'for every ordered pair (o1,o2) of orderings: a 29-function menu, '
+                                     'all pairs x 3 operators + negation, under o1, o2, o1 in one process'}
     if tier == 'thorough':
         d['4 variables'] = ('all 65536 functions x orderings {abcd, dcba, seed-chosen} x 20-function '
                             'partner menu x 3 operators, negation, restrictions, ROBDD size')
@@ -48,6 +50,8 @@ def plan(tier, seed):
             sh.append(['f3', oi, lo, hi])
     sh.append(['expr'])
     sh.append(['errors'])
+    for i in range(6):
+        sh.append(['xord', i])
     if tier == 'thorough':
         perms = list(itertools.permutations(range(4)))
         ois = sorted(set([0, 23, seed % 24, (seed * 7 + 5) % 24]))
@@ -177,6 +181,40 @@ def run_shard(shard, tier, seed, acc):
                 else:
                     check_obdd(tt, r[1], order, want, acc, case, 'expr')
         acc.sample({'expr': render(exprs(2, V3)[4000]), 'orders': 'all 6'})
+        return
+    if kind == 'xord':
+        # two-step histories: the same operations under ordering o1, then under o2 (and back):
+        # results must be right under both, whatever the library remembered in between
+        tt = TT(V3)
+        perms = [list(p) for p in itertools.permutations(V3)]
+        o1 = perms[shard[1]]
+        menu = [t for i, t in enumerate(tt.all_functions()) if i % 11 == 0 or i in (15, 51, 85, 170, 204, 240)]
+        for o2 in perms:
+            if o2 == o1:
+                continue
+            for order in (o1, o2, o1):
+                fn = dict((t, OBDD(tt.dnf(t), list(order))) for t in tt.all_functions())
+                for ta in menu:
+                    for tb in menu:
+                        for sym, pf, of in OPS:
+                            r = call(of, fn[ta], fn[tb])
+                            want = tuple(pf(p, q) for p, q in zip(ta, tb))
+                            acc.ev(1, 1 if (any(want) and not all(want)) else 0)
+                            c2 = {'vars': V3, 'order': order, 'f': [int(x) for x in ta],
+                                  'g': [int(x) for x in tb], 'op': sym,
+                                  'history': 'same operations under %r then %r then %r' % (o1, o2, o1)}
+                            if r[0] != 'ok':
+                                acc.violation('apply-exception', c2, None, r[1:])
+                            else:
+                                check_obdd(tt, r[1], order, want, acc, c2, 'apply', fn)
+                    r = call(lambda: ~fn[ta])
+                    if r[0] != 'ok':
+                        acc.violation('neg-exception', {'order': order, 'f': [int(x) for x in ta]}, None, r[1:])
+                    else:
+                        check_obdd(tt, r[1], order, tuple(not x for x in ta), acc,
+                                   {'vars': V3, 'order': order, 'f': [int(x) for x in ta]}, 'neg', fn)
+        acc.sample({'history': 'all menu pairs x {&,|,^} under %r, then under each other ordering, then '
+                               'again under %r' % (o1, o1)})
         return
     if kind == 'errors':
         orders = [list(p) for k in (1, 2, 3) for p in itertools.permutations(V3, k)]
